@@ -738,6 +738,26 @@ Proof.
                                   2 3 3 2 2 2 2 (fun _ => 0%F) 2 1 1))).
 Qed.
 
+(* Sanity check of the statement of (B), by running the generated kernel on
+   this instance: after nu = 1 sweep (descending order) the block (1,1,1) is
+   exact and the block (2,1,1) is not; after nu = 2 it is the other way round. *)
+Definition res_at (nu ix iy iz : Z) : Z -> Q :=
+  let r := gauss_seidel 3 2 2 aex aey aez asx asy asz aeta aeta aeta azeta ah ah ah nu in
+  fun k => edge_res (fst (fst r)) (snd (fst r)) (snd r) asx asy asz aeta aeta aeta azeta ah ah ah
+             (cur (fst (fst r)) (snd (fst r)) (snd r) ix iy iz) ix iy iz k.
+
+Example gs_last_example :
+  last_node 1 3 = 1 /\ last_node 2 3 = 2 /\
+  (forall k, 0 <= k < 6 -> res_at 1 1 1 1 k = 0%F) /\ res_at 1 2 1 1 2 <> 0%F /\
+  (forall k, 0 <= k < 6 -> res_at 2 2 1 1 k = 0%F) /\ res_at 2 1 1 1 2 <> 0%F.
+Proof.
+  split; [reflexivity|split; [reflexivity|split; [|split; [|split]]]].
+  - by_dump 6 (res_at 1 1 1 1) (fun _ : Z => 0%F).
+  - vm_compute; discriminate.
+  - by_dump 6 (res_at 2 2 1 1) (fun _ : Z => 0%F).
+  - vm_compute; discriminate.
+Qed.
+
 Print Assumptions Zfold_rel3.
 Print Assumptions sys_matrix_indep_src.
 Print Assumptions solve_lin_ext.
@@ -750,3 +770,4 @@ Print Assumptions sweeps_last.
 Print Assumptions gauss_seidel_last_block_exact_at.
 Print Assumptions gauss_seidel_last_block_exact.
 Print Assumptions gs_pivots_example.
+Print Assumptions gs_last_example.
